@@ -170,4 +170,17 @@ spec fn ghosts_named<'a>(sv: SView, ctx: CView) -> bool {
     |x: &GhostData| -> (r: TokenStream) requires x.ghost_ident is Member ensures r@ =~= ghost_binding()(x)
 //@end
 
+
+// ---------------------------------------------------------------- vars(..) bindings (C08)
+spec fn otoks(o: Option<TokenStream>) -> Option<Toks> { match o { Some(t) => Some(t@), None => None } }
+
+//@fn expand.rs struct_pre_init
+//@props C08,C10
+//@uses flat_lemmas::group_flat
+//@spec
+    ensures otoks(r) == spec_pre_init(*ctx), // #one-let-per-var-in-declaration-order
+//@closure 0
+    |x: &InitData| -> (r: TokenStream) ensures r@ =~= let_binding(*ctx)(x)
+//@end
+
 } // verus!
